@@ -285,6 +285,8 @@ def check_property(prop, tier, seed, quiet=False):
         undecided += [f"[{r['unit']}] {u}" for u in r["undecided"]]
         failed_labels = {x["label"] for x in r["refuted"] if x["label"]}
         failed_fns = {x["fn"] for x in r["refuted"]}
+        # the body obligation of a function (implicit side conditions) fails only through an implicit/unlabelled failure
+        failed_body_fns = {x["fn"] for x in r["refuted"] if not x["label"] or x["kind"] in ("implicit", "unlabelled")}
         for lab, info in r["labels"].items():
             if not lab.startswith(prop + "."):
                 continue
@@ -296,7 +298,7 @@ def check_property(prop, tier, seed, quiet=False):
             if f.get("implicit_label") and not f["implicit_label"].startswith(prop + "."):
                 ob = f"{f['fn']}#body"
             obligations.append(ob)
-            if f["fn"] not in failed_fns and not r["undecided"]:
+            if f["fn"] not in failed_body_fns and not r["undecided"]:
                 discharged.append(ob)
         for x in r["refuted"]:
             if x["label"] and not x["label"].startswith(prop + "."):
@@ -322,8 +324,11 @@ def check_property(prop, tier, seed, quiet=False):
         msg = f"[{unit}] helper clause {x['label']} no longer matches {x['fn']} (lemmas resting on it are undecided)"
         if msg not in undecided:
             undecided.append(msg)
-    obligations = sorted(set(obligations))
-    discharged = sorted(set(discharged))
+    # obligations matched by a known finding are reported separately (coverage.known_findings) and are not part of
+    # the obligations this run claims to discharge
+    kf_labels = {x["label"] for _, x in kf}
+    obligations = sorted(set(obligations) - kf_labels)
+    discharged = sorted(set(discharged) - kf_labels)
     # kani harnesses (complete proofs on the compiled crate) registered for this property
     kani = run_kani(prop, tier) if tier == "thorough" or os.environ.get("VX_KANI") == "1" else None
     if kani:
